@@ -598,7 +598,7 @@ func (fe *FnEnc) useContract(ct *Contract, args []Val, rt types.Type, pos token.
 	ev2 := fe.newEval(fe.mem, pre, env)
 	ev2.calleePkg = ct.PkgPath
 	for _, e := range ct.Ensures {
-		t := ev2.evalBool(e.E)
+		t := ev2.evalAssume(e.E)
 		s.assert(implies(fe.guard, t))
 	}
 	if ct.Trusted {
